@@ -137,9 +137,7 @@ func (u *Universe) Abs(a *app.ShutterApp) J {
 		st["ctCounts"] = addrMap(u, a.CheckTxState.TxCounts, 0, func(n int) any { return n })
 		st["ctNonces"] = addrMap(u, a.CheckTxState.NonceTracker.RandomNonces, []uint64{}, func(m map[uint64]bool) any { return sortedNonces(m) })
 	}
-	if a.DevMode {
-		st["dev"] = true
-	}
+	st["dev"] = a.DevMode
 	return st
 }
 
